@@ -8,11 +8,18 @@ import (
 	v "github.com/emirpasic/gods/v2/zzvsup"
 )
 
-// Comparator family (configuration "cmp"): 0 natural, 1 reversed, 2 coarsened (x>>2: many keys compare equal).
+// Comparator family (configuration "cmp"): 0 natural, 1 reversed, 2 coarsened (x>>2: many keys compare equal),
+// 3 generic: keys are compared by an UNINTERPRETED rank function rank: int -> int chosen by the solver. Every strict
+// weak order on a finite set of keys is induced by some rank function into the integers (and every rank function
+// induces one), so on each path, which only ever compares finitely many key terms, this is "any comparator that is a
+// strict weak order" - natural, reversed, coarsened, by-absolute-value, by-parity, ... are all instances.
 
 func key(x int) int {
-	if v.CfgOr("cmp", 0) == 2 {
+	switch v.CfgOr("cmp", 0) {
+	case 2:
 		return x >> 2
+	case 3:
+		return v.Fn("rank", x, 0)
 	}
 	return x
 }
